@@ -49,6 +49,9 @@ static void*
 fiber_go_function(void* param) {
   fiber_t* the_fiber = (fiber_t*)param;
 
+#ifdef LIBFIBER_VERIF
+  verif_event(5, the_fiber, the_fiber);
+#endif
   /* do maintenance - this is usually done after fiber_context_swap, but we do
    * it here too since we are coming from a new place */
   fiber_manager_do_maintenance();
@@ -74,6 +77,9 @@ fiber_t* fiber_create_no_sched(size_t stack_size,
     return NULL;
   }
 
+#ifdef LIBFIBER_VERIF
+  verif_event(7, ret, NULL);
+#endif
   ret->run_function = run_function;
   ret->param = param;
   ret->state = FIBER_STATE_READY;
@@ -112,6 +118,9 @@ fiber_t* fiber_create_from_thread() {
     return NULL;
   }
 
+#ifdef LIBFIBER_VERIF
+  verif_event(8, ret, NULL);
+#endif
   ret->state = FIBER_STATE_RUNNING;
   ret->detach_state = FIBER_DETACH_NONE;
   ret->join_info = NULL;
